@@ -687,6 +687,12 @@ func (obj *SparseReal32Matrix) UnmarshalJSON(data []byte) error {
   if len(r.Index) != len(r.Value) {
     return fmt.Errorf("invalid sparse vector")
   }
+  if r.Rows < 0 || r.Cols < 0 {
+    return fmt.Errorf("invalid sparse matrix: negative dimension")
+  }
+  if err := checkSparseIndices(r.Index, r.Rows*r.Cols); err != nil {
+    return err
+  }
   obj.values = NewSparseReal32Vector(r.Index, r.Value, r.Rows*r.Cols)
   obj.rows = r.Rows
   obj.rowMax = r.Rows
